@@ -290,12 +290,15 @@ func (w *world) exec(o *op) string {
 		return w.await(o.T)
 	case "finish":
 		x := w.thr[o.T]
+		if x.state != 1 {
+			return "BBad" // nothing of this thread is parked (e.g. it is blocked on the mutex)
+		}
 		w.b.Release(x.who, []kvx15.Mode{kvx15.Pass, kvx15.FailBefore, kvx15.FailAfter}[o.Out])
 		r := <-x.done
 		x.state = 0
 		return respObs(r)
 	case "wake":
-		return w.await(o.T)
+		panic("wake is recorded by wakeBlocked, never executed")
 	case "get":
 		r, err := w.x.S.GetGCSafePoint(w.ctx, &pdpb.GetGCSafePointRequest{Header: w.x.Header()})
 		if err != nil || r.GetHeader().GetError() != nil {
@@ -362,14 +365,53 @@ func (w *world) step(c *caseRec, o op) string {
 	c.Ops = append(c.Ops, o)
 	c.Obs = append(c.Obs, "("+ob+", "+w.view()+")")
 	if o.K == "finish" {
-		// requests that were blocked behind the released one proceed now
-		for t, x := range w.thr {
-			if x.state == 2 {
-				w.step(c, op{K: "wake", T: t})
-			}
-		}
+		w.wakeBlocked(c)
 	}
 	return ob
+}
+
+// wakeBlocked: requests that were blocked behind a released one proceed now, in whatever order the
+// mutex hands itself over; each one that gets through is recorded as an OWake op. While one of
+// them is parked inside the section the others stay blocked.
+func (w *world) wakeBlocked(c *caseRec) {
+	deadline := time.Now().Add(120 * time.Second)
+	for {
+		var bl []int
+		for t, x := range w.thr {
+			if x.state == 2 {
+				bl = append(bl, t)
+			}
+		}
+		if len(bl) == 0 || w.anyParked() {
+			return
+		}
+		progressed := false
+		for _, t := range bl {
+			x := w.thr[t]
+			ob := ""
+			select {
+			case <-w.b.Parked(x.who):
+				x.state = 1
+				ob = "BStarted"
+			case r := <-x.done:
+				x.state = 0
+				ob = respObs(r)
+			default:
+			}
+			if ob != "" {
+				c.Ops = append(c.Ops, op{K: "wake", T: t})
+				c.Obs = append(c.Obs, "("+ob+", "+w.view()+")")
+				progressed = true
+				break
+			}
+		}
+		if !progressed {
+			if time.Now().After(deadline) {
+				panic("blocked requests do not proceed although nothing is parked")
+			}
+			time.Sleep(200 * time.Microsecond)
+		}
+	}
 }
 
 // drain leaves no goroutine parked or blocked
@@ -379,6 +421,105 @@ func (w *world) drain(c *caseRec) {
 			if x.state == 1 {
 				w.step(c, op{K: "finish", T: t})
 			}
+		}
+	}
+}
+
+
+// svcRace checks, on the real server, that UpdateServiceGCSafePoint issues its storage operations
+// inside serviceSafePointLock: request A (a1, safe point 45, min is gc_worker@40) is parked at its
+// SaveServiceGCSafePoint; the lock must be held then. If it is not, the consequence is exhibited:
+// B raises gc_worker to 60 and is told min=60, then A records 45 below the acknowledged minimum.
+func (w *world) svcRace() {
+	w.reset()
+	inf := int64(math.MaxInt64)
+	call := func(id string, ttl int64, sp uint64) (*pdpb.UpdateServiceGCSafePointResponse, error) {
+		return w.x.S.UpdateServiceGCSafePoint(w.ctx, &pdpb.UpdateServiceGCSafePointRequest{Header: w.x.Header(), ServiceId: []byte(id), TTL: ttl, SafePoint: sp})
+	}
+	if _, err := call("gc_worker", inf, 40); err != nil {
+		panic(err)
+	}
+	done := make(chan error, 1)
+	go func() {
+		w.b.Bind("sA")
+		w.b.Arm("sA", func(o kvx15.Op) bool { return o.Kind == kvx15.Save && o.Key == svcPrefix+"a1" }, kvx15.Park)
+		_, err := call("a1", 1000, 45)
+		w.b.Disarm("sA")
+		w.b.Unbind()
+		done <- err
+	}()
+	select {
+	case <-w.b.Parked("sA"):
+	case err := <-done:
+		panic(fmt.Sprint("service update finished without saving: ", err))
+	case <-time.After(60 * time.Second):
+		panic("service update neither parked nor finished")
+	}
+	held := w.x.S.VerifC15ServiceLockHeld()
+	if held {
+		w.R.Count("svc-lock:held-at-parked-save")
+		w.b.Release("sA", kvx15.Pass)
+		<-done
+		return
+	}
+	w.R.Count("svc-lock:NOT-held-at-parked-save")
+	r, err := call("gc_worker", inf, 60)
+	w.b.Release("sA", kvx15.Pass)
+	<-done
+	desc := "UpdateServiceGCSafePoint issued SaveServiceGCSafePoint without holding serviceSafePointLock"
+	if err == nil {
+		if e := find(w.all(), "a1"); e != nil && e.SafePoint < r.GetMinSafePoint() {
+			desc += fmt.Sprintf("; consequence: gc_worker was told min=%d while service a1 was then recorded at %d", r.GetMinSafePoint(), e.SafePoint)
+		}
+	}
+	w.R.Violate("C15:service-update-not-serialised", desc,
+		[]string{"svc gc_worker inf 40", "begin svc a1 1000 45 (parked at save)", "svc gc_worker inf 60", "release a1"})
+}
+
+// describe gives the driver's own one-sentence description of a directed case whose implementation
+// trace shows a violation (the same signatures as the Coq monitor, which is the authority).
+func (w *world) describe(c caseRec) {
+	gcAt := func(i int) string {
+		f := strings.SplitN(c.Obs[i], "(View ", 2)
+		if len(f) < 2 {
+			return ""
+		}
+		return strings.TrimSpace(strings.SplitN(f[1], "[", 2)[0])
+	}
+	for i, o := range c.Ops {
+		if i == 0 {
+			continue
+		}
+		prev, cur := gcAt(i-1), gcAt(i)
+		num := func(s string) (uint64, bool) {
+			if s == "GAbsent" {
+				return 0, true
+			}
+			var v uint64
+			if _, err := fmt.Sscanf(s, "(GVal %d%%Z)", &v); err == nil {
+				return v, true
+			}
+			return 0, false
+		}
+		a, ok1 := num(prev)
+		b, ok2 := num(cur)
+		if !ok1 {
+			continue
+		}
+		if !ok2 || b < a {
+			ops := make([]string, len(c.Ops))
+			for j := range c.Ops {
+				ops[j] = c.Ops[j].coq()
+			}
+			switch {
+			case o.K == "finish":
+				w.R.Violate("C15:gc-safe-point-decreased:overlapping-updates",
+					fmt.Sprintf("stored cluster GC safe point went from %d back to %s when a parked UpdateGCSafePoint(%s) was released after another update had been acknowledged (no mutual exclusion between LoadGCSafePoint and SaveGCSafePoint)", a, cur, c.Obs[i]), c)
+			case (o.K == "svc" || o.K == "apidel") && keyOf(o.ID) == "KGc":
+				w.R.Violate("C15:gc-safe-point-clobbered:service-id-path-escape",
+					fmt.Sprintf("service id %q is cleaned by path.Join onto gc/safe_point: stored cluster GC safe point went from %d to %s after %s", o.ID, a, cur, o.coq()), c)
+			}
+			return
 		}
 	}
 }
@@ -425,7 +566,9 @@ func pickID(r *rng.R, odd int) string {
 
 func genSeed(r *rng.R, odd int) op {
 	o := op{K: "seed", ID: pickID(r, odd), SP: pickSP(r)}
-	if o.ID == "" {
+	// a raw entry "found in storage" lives under the service prefix (possibly under a foreign id);
+	// the driver itself never writes to any other key
+	if o.ID == "" || !strings.HasPrefix(keyOf(o.ID), "(KSvc") {
 		o.ID = "q9"
 	}
 	switch r.Pick(35, 35, 20, 10) {
@@ -665,6 +808,7 @@ func main() {
 	if *replay == "" {
 		for i, d := range directed() {
 			c := runFixed(d, "directed")
+			w.describe(c)
 			if i == 0 {
 				for _, ob := range c.Obs {
 					if strings.HasPrefix(ob, "(BBlocked") {
@@ -675,6 +819,9 @@ func main() {
 				}
 			}
 		}
+	}
+	if *replay == "" {
+		w.svcRace()
 	}
 	for _, f := range []string{*corpus, *replay} {
 		if f == "" {
